@@ -87,7 +87,7 @@ def make_ops(rng, doc, scratch):
                         'spine_ids', 'header_nodes', 'voices', 'voices_clean', 'graph_stdout', 'graph_file', 'next', 'leaves',
                         'export_options_reuse', 'spine_count', 'dump_file', 'deprecated_export', 'clone_export', 'match_self',
                         'header_stage', 'deprecated_spine_types', 'tokens_to_encodings', 'partial_iteration', 'token_protocol',
-                        'token_protocol'])
+                        'token_protocol', 'own_options_edited'])
         if w == 'dump_file':
             enc = rng.choice(kpx.ENCODINGS)
 
@@ -119,6 +119,26 @@ def make_ops(rng, doc, scratch):
                     warnings.simplefilter('ignore')
                     return kp.export(d, o)
             return (f'export(doc, ExportOptions({sorted(okw)})) [options object compared field by field]', g, ({'options': o}, {'options': o0}))
+        if w == 'own_options_edited':
+            # a caller who takes a default options object and edits ITS containers in place (his object, his business): the library's
+            # own defaults - the constants fingerprinted after every call - and every later default export stay what they were
+            extra_t = rng.choice(['**foo', '**silbe'])
+            drop_t = rng.choice(sorted(set(doc.headers)))
+
+            def g(d):
+                o = kp.ExportOptions() if rng.random() < 0.5 else kp.ExportOptions.default()
+                for fld in ('spine_types', 'token_categories'):
+                    v = getattr(o, fld, None)
+                    if isinstance(v, set):
+                        v.discard(drop_t)
+                        v.add(extra_t) if fld == 'spine_types' else v.discard(kp.TokenCategory.DECORATION)
+                    elif isinstance(v, list):
+                        if drop_t in v:
+                            v.remove(drop_t)
+                        if fld == 'token_categories' and kp.TokenCategory.DECORATION in v:
+                            v.remove(kp.TokenCategory.DECORATION)
+                return (kp.dumps(d), kp.spine_types(d), sorted(kp.ExportOptions().spine_types), len(kp.ExportOptions().token_categories))
+            return ('a default ExportOptions object edited in place by its owner, then default exports', g, None)
         if w == 'token_protocol':
             # reading a token is reading the document: str / repr / format / export() without arguments / == / hash on the tokens the
             # queries hand out and on the nodes of the tree (what print(token) or a debugger does)
